@@ -56,7 +56,7 @@ finally:
 dst = f'/verif/seeded/{sid}'
 os.makedirs(dst, exist_ok=True)
 for f in ('patch.diff', 'demo.py', 'notes.md'):
-    if os.path.exists(os.path.join(src, f)):
+    if os.path.exists(os.path.join(src, f)) and os.path.abspath(src) != os.path.abspath(dst):
         shutil.copy(os.path.join(src, f), os.path.join(dst, f))
 try:
     notes = open(os.path.join(src, 'notes.md')).read()
